@@ -5,93 +5,93 @@ trusted base and its size is reported in the evidence."""
 
 REVIEWED = {
     # --- IdpfPublicShare::decode_with_param: relations between `bits` and the packed bit vector
-    "<idpf::IdpfPublicShare<VI, VL> as codec::ParameterizedDecode<usize>>::decode_with_param|call:index|BitVec::<T, O>::from_vec(φpacked_control_bits)|Range{0, (bits Mul 2)}":
+    "<idpf::IdpfPublicShare<VI, VL> as codec::ParameterizedDecode<usize>>::decode_with_param|call:index|BitVec::<T, O>::from_vec(φ)|Range{0, ($1 Mul 2)}":
         "the bit vector has 8*ceil(bits/4) >= 2*bits bits (built from vec![0; bits.div_ceil(4)] two lines above)",
-    "<idpf::IdpfPublicShare<VI, VL> as codec::ParameterizedDecode<usize>>::decode_with_param|call:index|BitVec::<T, O>::from_vec(φpacked_control_bits)|RangeFrom{(bits Mul 2)}":
+    "<idpf::IdpfPublicShare<VI, VL> as codec::ParameterizedDecode<usize>>::decode_with_param|call:index|BitVec::<T, O>::from_vec(φ)|RangeFrom{($1 Mul 2)}":
         "same relation: 2*bits <= 8*ceil(bits/4)",
-    "<idpf::IdpfPublicShare<VI, VL> as codec::ParameterizedDecode<usize>>::decode_with_param|index-call|(<Chunks<'a, T, O> as Iterator>::next(φiter) as Some).0|0":
+    "<idpf::IdpfPublicShare<VI, VL> as codec::ParameterizedDecode<usize>>::decode_with_param|index-call|(<Chunks<'a, T, O> as Iterator>::next(φ) as Some).0|0":
         "chunks(2) of a slice of even length 2*bits yields chunks of exactly 2 bits",
-    "<idpf::IdpfPublicShare<VI, VL> as codec::ParameterizedDecode<usize>>::decode_with_param|index-call|(<Chunks<'a, T, O> as Iterator>::next(φiter) as Some).0|1":
+    "<idpf::IdpfPublicShare<VI, VL> as codec::ParameterizedDecode<usize>>::decode_with_param|index-call|(<Chunks<'a, T, O> as Iterator>::next(φ) as Some).0|1":
         "chunks(2) of a slice of even length 2*bits yields chunks of exactly 2 bits",
     # --- Cursor invariant
-    "codec::ParameterizedDecode::get_decoded_with_param|overflow:Sub|len(bytes)|(Cursor::<T>::position(φcursor) as usize)":
+    "codec::ParameterizedDecode::get_decoded_with_param|overflow:Sub|len($2)|(Cursor::<T>::position(φ) as usize)":
         "std invariant: a Cursor<&[u8]> advanced only through Read never moves past the end of its slice",
     # --- IdpfInput::prefix as used by the aggregation-parameter decoder
-    "idpf::IdpfInput::prefix|call:index|self.index|RangeToInclusive{level}":
+    "idpf::IdpfInput::prefix|call:index|$1.index|RangeToInclusive{$2}":
         "public infallible API with a documented panic; the decoder calls it with level < 8*prefix_byte_len = len(index) "
         "(buf has ceil((level+1)/8) bytes); callers in Poplar1 pass levels below the stored prefix length",
 
     # --- api-source analysis (C16): relations the interval domain cannot express
-    '<flp::ProveShimGadget<F> as flp::Gadget<F>>::eval|call:index_mut|φself.wire_values|RangeTo{len(inp)}':
+    '<flp::ProveShimGadget<F> as flp::Gadget<F>>::eval|call:index_mut|φ.wire_values|RangeTo{len($2)}':
         'private shim gadget: every in-crate validity circuit calls eval with exactly arity() inputs and wire_values has arity() rows',
-    '<flp::QueryShimGadget<F> as flp::Gadget<F>>::eval|call:index_mut|φself.wire_values|RangeTo{len(inp)}':
+    '<flp::QueryShimGadget<F> as flp::Gadget<F>>::eval|call:index_mut|φ.wire_values|RangeTo{len($2)}':
         'private shim gadget: every in-crate validity circuit calls eval with exactly arity() inputs and wire_values has arity() rows',
-    '<flp::types::MultihotCountVec<F, S> as flp::Type>::encode_measurement::{closure#1}|call:unwrap|FieldElementWithIntegerExt::valid_integer_try_from((bit as usize))':
+    '<flp::types::MultihotCountVec<F, S> as flp::Type>::encode_measurement::{closure#1}|call:unwrap|FieldElementWithIntegerExt::valid_integer_try_from(($2 as usize))':
         "the converted value is `bit as usize` in {0, 1}, which fits every field's integer type",
-    '<flp::types::MultihotCountVec<F, S> as flp::Type>::truncate|call:index|input|RangeTo{self.length}':
+    '<flp::types::MultihotCountVec<F, S> as flp::Type>::truncate|call:index|$2|RangeTo{$1.length}':
         'truncate_call_check pins len(input) to input_len() = length + bits_for_weight >= length',
-    '<idpf::IdpfInput as std::ops::Index<I>>::index|index-call|self.index|index':
+    '<idpf::IdpfInput as std::ops::Index<I>>::index|index-call|$1.index|$2':
         'std::ops::Index impl (indexing contract; not a Result-returning operation), reached only through class-hierarchy resolution',
-    '<vdaf::poplar1::VerifierState<F> as codec::Encode>::encode|call:expect|<impl TryFrom<usize> for u32>::try_from(len(self.output_share))|"Couldn\'t convert output_share length to u32"':
+    '<vdaf::poplar1::VerifierState<F> as codec::Encode>::encode|call:expect|<impl TryFrom<usize> for u32>::try_from(len($1.output_share))|"Couldn\'t convert output_share length to u32"':
         'documented expect: output_share has one element per candidate prefix and Poplar1AggregationParam holds at most u32::MAX prefixes',
-    '<vdaf::prio2::Prio2 as vdaf::Client<16>>::shard::{closure#0}|call:clone_from_slice|<impl IndexMut<I> for [T]>::index_mut(share_data, RangeFull{})|^input':
+    '<vdaf::prio2::Prio2 as vdaf::Client<16>>::shard::{closure#0}|call:clone_from_slice|<impl IndexMut<I> for [T]>::index_mut($2, RangeFull{})|^^1':
         'share_data is the `dimension`-long data part handed out by unpack_proof_mut and input has measurement.len() == input_len elements (checked at the top of shard)',
-    '<vdaf::prio3::Prio3<T, P, SEED_SIZE> as vdaf::Aggregator<SEED_SIZE, 16>>::verify_init|call:index|Prio3::<T, P, SEED_SIZE>::derive_query_rands(self, verify_key, ctx, nonce)|Range{((<impl Iterator for Range<A>>::next(φiter) as Some).0 Mul Flp::query_rand_len(self.typ)), (((<impl Iterator for Range<A>>::next(φiter) as Some).0 Add 1) ':
+    '<vdaf::prio3::Prio3<T, P, SEED_SIZE> as vdaf::Aggregator<SEED_SIZE, 16>>::verify_init|call:index|Prio3::<T, P, SEED_SIZE>::derive_query_rands($1, $2, $3, $6)|Range{((<impl Iterator for Range<A>>::next(φ) as Some).0 Mul Flp::query_rand_len($1.typ)), (((<impl Iterator for Range<A>>::next(φ) as Some).0 Add 1) Mul Flp::q':
         'query_rands has query_rand_len() * num_proofs() elements (into_field_vec of exactly that length) and p ranges over 0..num_proofs()',
-    'codec::encode_u16_items|call:copy_from_slice|<Vec<T, A> as IndexMut<I>>::index_mut(bytes, Range{len(bytes), (len(bytes) Add 2)})|<impl u16>::to_be_bytes(Result::<T, E>::map_err(<impl TryFrom<usize> for u16>::try_from(((len(bytes) Sub len(bytes)) Sub 2)), closure {closure#0}[])?)':
+    'codec::encode_u16_items|call:copy_from_slice|<Vec<T, A> as IndexMut<I>>::index_mut($1, Range{len($1), (len($1) Add 2)})|<impl u16>::to_be_bytes(Result::<T, E>::map_err(<impl TryFrom<usize> for u16>::try_from(((len($1) Sub len($1)) Sub 2)), closure {closure#0}[])?)':
         'length-prefix back-patching over a growing Vec: len_offset was recorded before a placeholder of the prefix width was pushed, so bytes.len() >= len_offset + width at the later reads (the reconstructed terms cannot distinguish the two len() reads)',
-    'codec::encode_u16_items|call:index_mut|bytes|Range{len(bytes), (len(bytes) Add 2)}':
+    'codec::encode_u16_items|call:index_mut|$1|Range{len($1), (len($1) Add 2)}':
         'length-prefix back-patching over a growing Vec: len_offset was recorded before a placeholder of the prefix width was pushed, so bytes.len() >= len_offset + width at the later reads (the reconstructed terms cannot distinguish the two len() reads)',
-    'codec::encode_u16_items|overflow:Sub|(len(bytes) Sub len(bytes))|2':
+    'codec::encode_u16_items|overflow:Sub|(len($1) Sub len($1))|2':
         'length-prefix back-patching over a growing Vec: len_offset was recorded before a placeholder of the prefix width was pushed, so bytes.len() >= len_offset + width at the later reads (the reconstructed terms cannot distinguish the two len() reads)',
-    'codec::encode_u16_items|overflow:Sub|len(bytes)|len(bytes)':
+    'codec::encode_u16_items|overflow:Sub|len($1)|len($1)':
         'length-prefix back-patching over a growing Vec: len_offset was recorded before a placeholder of the prefix width was pushed, so bytes.len() >= len_offset + width at the later reads (the reconstructed terms cannot distinguish the two len() reads)',
-    'codec::encode_u32_items|call:copy_from_slice|<Vec<T, A> as IndexMut<I>>::index_mut(bytes, Range{len(bytes), (len(bytes) Add 4)})|<impl u32>::to_be_bytes(Result::<T, E>::map_err(<impl TryFrom<usize> for u32>::try_from(((len(bytes) Sub len(bytes)) Sub 4)), closure {closure#0}[])?)':
+    'codec::encode_u32_items|call:copy_from_slice|<Vec<T, A> as IndexMut<I>>::index_mut($1, Range{len($1), (len($1) Add 4)})|<impl u32>::to_be_bytes(Result::<T, E>::map_err(<impl TryFrom<usize> for u32>::try_from(((len($1) Sub len($1)) Sub 4)), closure {closure#0}[])?)':
         'length-prefix back-patching over a growing Vec: len_offset was recorded before a placeholder of the prefix width was pushed, so bytes.len() >= len_offset + width at the later reads (the reconstructed terms cannot distinguish the two len() reads)',
-    'codec::encode_u32_items|call:index_mut|bytes|Range{len(bytes), (len(bytes) Add 4)}':
+    'codec::encode_u32_items|call:index_mut|$1|Range{len($1), (len($1) Add 4)}':
         'length-prefix back-patching over a growing Vec: len_offset was recorded before a placeholder of the prefix width was pushed, so bytes.len() >= len_offset + width at the later reads (the reconstructed terms cannot distinguish the two len() reads)',
-    'codec::encode_u32_items|overflow:Sub|(len(bytes) Sub len(bytes))|4':
+    'codec::encode_u32_items|overflow:Sub|(len($1) Sub len($1))|4':
         'length-prefix back-patching over a growing Vec: len_offset was recorded before a placeholder of the prefix width was pushed, so bytes.len() >= len_offset + width at the later reads (the reconstructed terms cannot distinguish the two len() reads)',
-    'codec::encode_u32_items|overflow:Sub|len(bytes)|len(bytes)':
+    'codec::encode_u32_items|overflow:Sub|len($1)|len($1)':
         'length-prefix back-patching over a growing Vec: len_offset was recorded before a placeholder of the prefix width was pushed, so bytes.len() >= len_offset + width at the later reads (the reconstructed terms cannot distinguish the two len() reads)',
-    'codec::encode_u8_items|index-call|bytes|len(bytes)':
+    'codec::encode_u8_items|index-call|$1|len($1)':
         'length-prefix back-patching over a growing Vec: len_offset was recorded before a placeholder of the prefix width was pushed, so bytes.len() >= len_offset + width at the later reads (the reconstructed terms cannot distinguish the two len() reads)',
-    'codec::encode_u8_items|overflow:Sub|(len(bytes) Sub len(bytes))|1':
+    'codec::encode_u8_items|overflow:Sub|(len($1) Sub len($1))|1':
         'length-prefix back-patching over a growing Vec: len_offset was recorded before a placeholder of the prefix width was pushed, so bytes.len() >= len_offset + width at the later reads (the reconstructed terms cannot distinguish the two len() reads)',
-    'codec::encode_u8_items|overflow:Sub|len(bytes)|len(bytes)':
+    'codec::encode_u8_items|overflow:Sub|len($1)|len($1)':
         'length-prefix back-patching over a growing Vec: len_offset was recorded before a placeholder of the prefix width was pushed, so bytes.len() >= len_offset + width at the later reads (the reconstructed terms cannot distinguish the two len() reads)',
-    'flp::Flp::query::{closure#0}|call:index|^*proof|Range{^proof_index, (^proof_index Add (Gadget::arity(gadget.0.pointer) Add gadget_poly_len(Gadget::degree(gadget.0.pointer), wire_poly_len(Gadget::calls(gadget.':
+    'flp::Flp::query::{closure#0}|call:index|^^1|Range{^^1, (^^1 Add (Gadget::arity($2.0.pointer) Add gadget_poly_len(Gadget::degree($2.0.pointer), wire_poly_len(Gadget::calls($2.0.pointer)))))}':
         'len(proof) was pinned to proof_len() = sum(arity + gadget_poly_len) by the guard at the top of query; the closure walks exactly that layout',
-    'flp::Flp::query|call:unwrap|TryFrom::try_from(wire_poly_len(Gadget::calls((<Zip<A, B> as Iterator>::next(φiter) as Some).0.0.0.pointer)))':
+    'flp::Flp::query|call:unwrap|TryFrom::try_from(wire_poly_len(Gadget::calls((<Zip<A, B> as Iterator>::next(φ) as Some).0.0.0.pointer)))':
         "wire_poly_len(calls) <= proof_len, and a circuit whose wire polynomial length does not fit the field's integer type cannot be instantiated (NTT size limit 2^20)",
-    'flp::ProveShimGadget::<F>::new|call:index|prove_rand|RangeTo{len(φwire_values)}':
+    'flp::ProveShimGadget::<F>::new|call:index|$2|RangeTo{len(φ)}':
         'the only caller passes prove_rand[i..i + inner.arity()], and wire_values has inner.arity() rows',
-    'flp::QueryShimGadget::<F>::new|bounds|len(proof_data)|(<impl Iterator for Range<A>>::next(φiter) as Some).0':
+    'flp::QueryShimGadget::<F>::new|bounds|len($2)|(<impl Iterator for Range<A>>::next(φ) as Some).0':
         'the only caller passes a proof_data slice of length arity + gadget_poly_len >= arity',
-    'flp::QueryShimGadget::<F>::new|call:index|proof_data|RangeFrom{Gadget::arity(inner.0.pointer)}':
+    'flp::QueryShimGadget::<F>::new|call:index|$2|RangeFrom{Gadget::arity($1.0.pointer)}':
         'the only caller passes a proof_data slice of length arity + gadget_poly_len >= arity',
-    'flp::QueryShimGadget::<F>::new|overflow:Shl|1|(log2((<impl usize>::next_power_of_two(gadget_poly_len(Gadget::degree(inner.0.pointer), wire_poly_len(Gadget::calls(inner.0.pointer)))) as u128)) Sub log2((wire':
+    'flp::QueryShimGadget::<F>::new|overflow:Shl|1|(log2((<impl usize>::next_power_of_two(gadget_poly_len(Gadget::degree($1.0.pointer), wire_poly_len(Gadget::calls($1.0.pointer)))) as u128)) Sub log2((wire_poly_':
         'size = npo2(degree*(p-1)+1) >= p for every gadget of degree >= 1 (all in-crate gadgets have degree >= 2), and size/p <= 2*degree so the shift amount is tiny',
-    'flp::QueryShimGadget::<F>::new|overflow:Sub|log2((<impl usize>::next_power_of_two(gadget_poly_len(Gadget::degree(inner.0.pointer), wire_poly_len(Gadget::calls(inner.0.pointer)))) as u128))|log2((wire_poly_len(Gadget::calls(inner.0.pointer)) as u128))':
+    'flp::QueryShimGadget::<F>::new|overflow:Sub|log2((<impl usize>::next_power_of_two(gadget_poly_len(Gadget::degree($1.0.pointer), wire_poly_len(Gadget::calls($1.0.pointer)))) as u128))|log2((wire_poly_len(Gadget::calls($1.0.pointer)) as u128))':
         'size = npo2(degree*(p-1)+1) >= p for every gadget of degree >= 1 (all in-crate gadgets have degree >= 2), and size/p <= 2*degree so the shift amount is tiny',
-    'flp::gadget_poly_len|overflow:Add|(gadget_degree Mul (wire_poly_len Sub 1))|1':
+    'flp::gadget_poly_len|overflow:Add|($1 Mul ($2 Sub 1))|1':
         'A1: the gadget polynomial is materialised in the proof buffer, so degree*(wire_poly_len-1)+1 is an in-memory length',
-    'flp::gadget_poly_len|overflow:Mul|gadget_degree|(wire_poly_len Sub 1)':
+    'flp::gadget_poly_len|overflow:Mul|$1|($2 Sub 1)':
         'A1: the gadget polynomial is materialised in the proof buffer, so degree*(wire_poly_len-1)+1 is an in-memory length',
-    'idpf::Idpf::<VI, VL>::eval_from_node|call:index|public_share.inner_correction_words|RangeFrom{start_level}':
+    'idpf::Idpf::<VI, VL>::eval_from_node|call:index|$3.inner_correction_words|RangeFrom{$4}':
         'start_level is the length of a cached proper prefix (< prefix.len() <= bits) and inner_correction_words has bits - 1 entries',
-    'idpf::Idpf::<VI, VL>::eval|overflow:Sub|<impl BitSlice<T, O>>::len(φcache_key)|1':
+    'idpf::Idpf::<VI, VL>::eval|overflow:Sub|<impl BitSlice<T, O>>::len(φ)|1':
         'Idpf::eval refuses an empty prefix before building cache_key, so cache_key.len() >= 1',
-    'vdaf::prio2::Prio2::verify_init_with_query_rand|call:index|(input_share as Leader).0|RangeTo{self.input_len}':
+    'vdaf::prio2::Prio2::verify_init_with_query_rand|call:index|($3 as Leader).0|RangeTo{$1.input_len}':
         "generate_verification_message(..)? succeeded, so unpack_proof's guard pinned len(data) to proof_length(input_len) = input_len + 3 + n >= input_len",
-    'vdaf::prio3::Prio3::<T, P, SEED_SIZE>::shard_with_random|call:index|Option::<T>::unwrap_or_default(Option::<T>::map(Prio3PublicShare{Option::<Result<T, E>>::transpose(Option::<T>::map(φhelper_joint_rand_parts, closure Prio3::<T,|Range{((<impl Iterator for Range<A>>::next(φiter) as Some).0 Mul Flp::joint_rand_len(self.typ)), (((<impl Iterator for Range<A>>::next(φiter) as Some).0 Add 1) ':
+    'vdaf::prio3::Prio3::<T, P, SEED_SIZE>::shard_with_random|call:index|Option::<T>::unwrap_or_default(Option::<T>::map(Prio3PublicShare{Option::<Result<T, E>>::transpose(Option::<T>::map(φ, closure Prio3::<T, P, SEED_SIZE>::{closur|Range{((<impl Iterator for Range<A>>::next(φ) as Some).0 Mul Flp::joint_rand_len($1.typ)), (((<impl Iterator for Range<A>>::next(φ) as Some).0 Add 1) Mul Flp::j':
         'joint_rands has joint_rand_len() * num_proofs() elements (empty when joint_rand_len() == 0) and p ranges over 0..num_proofs()',
-    "vdaf::prio3::Prio3::<T, P, SEED_SIZE>::shard_with_random|call:index|Prio3::<T, P, SEED_SIZE>::derive_prove_rands(self, ctx, Seed::<SEED_SIZE>::from_bytes(Option::<T>::unwrap(<Iter<'a, T> as Iterator>::next(φrandom_seeds))))|Range{((<impl Iterator for Range<A>>::next(φiter) as Some).0 Mul Flp::prove_rand_len(self.typ)), (((<impl Iterator for Range<A>>::next(φiter) as Some).0 Add 1) ":
+    "vdaf::prio3::Prio3::<T, P, SEED_SIZE>::shard_with_random|call:index|Prio3::<T, P, SEED_SIZE>::derive_prove_rands($1, $2, Seed::<SEED_SIZE>::from_bytes(Option::<T>::unwrap(<Iter<'a, T> as Iterator>::next(φ))))|Range{((<impl Iterator for Range<A>>::next(φ) as Some).0 Mul Flp::prove_rand_len($1.typ)), (((<impl Iterator for Range<A>>::next(φ) as Some).0 Add 1) Mul Flp::p":
         'prove_rands has prove_rand_len() * num_proofs() elements and p ranges over 0..num_proofs()',
-    'vdaf::prio3::Prio3::<T, P, SEED_SIZE>::shard_with_random|call:unwrap|<impl TryFrom<usize> for u8>::try_from((<Enumerate<I> as Iterator>::next(φiter) as Some).0.0)':
+    'vdaf::prio3::Prio3::<T, P, SEED_SIZE>::shard_with_random|call:unwrap|<impl TryFrom<usize> for u8>::try_from((<Enumerate<I> as Iterator>::next(φ) as Some).0.0)':
         'j enumerates the helper shares: j < num_aggregators - 1 <= 253, so j fits u8 and j + 1 <= 254',
-    'vdaf::prio3::Prio3::<T, P, SEED_SIZE>::shard_with_random|overflow:Add|Result::<T, E>::unwrap(<impl TryFrom<usize> for u8>::try_from((<Enumerate<I> as Iterator>::next(φiter) as Some).0.0))|1':
+    'vdaf::prio3::Prio3::<T, P, SEED_SIZE>::shard_with_random|overflow:Add|Result::<T, E>::unwrap(<impl TryFrom<usize> for u8>::try_from((<Enumerate<I> as Iterator>::next(φ) as Some).0.0))|1':
         'j enumerates the helper shares: j < num_aggregators - 1 <= 253, so j fits u8 and j + 1 <= 254',
-    "flp::types::dp::<impl flp::types::l1boundsum::L1BoundSum<F, S>>::add_noise|call:unwrap|<impl TryFrom<BigInt> for BigUint>::try_from((conv(self.max_value) Mul 2))":
+    "flp::types::dp::<impl flp::types::l1boundsum::L1BoundSum<F, S>>::add_noise|call:unwrap|<impl TryFrom<BigInt> for BigUint>::try_from((conv($1.max_value) Mul 2))":
         "BigInt::from(an unsigned integer) * 2 is non-negative, so the conversion to BigUint cannot fail",
 }
